@@ -145,11 +145,9 @@ where
                 Some(PostRet::Remove) => Ok(PostAction::Remove),
                 _ => Ok(PostAction::Continue),
             },
-            Ok(a) => match forced {
-                // a scripted error wins over whatever the wrapped source decided
-                Some(PostRet::Err) => Err(Box::new(Scripted("process_events"))),
-                _ => Ok(a),
-            },
+            // the wrapped source decided something itself (a timer that dropped itself, a closed channel): a real
+            // source does not both do that and fail, so the scripted error is not injected on top of it
+            Ok(a) => Ok(a),
         };
         let ret = match &out {
             Ok(a) => to_pret(*a),
@@ -1603,6 +1601,13 @@ impl Ctx {
                     sh.push(Ev::Op(ROp::CancelIdle { idle: i }));
                     let r = catch_unwind(AssertUnwindSafe(|| h.cancel()));
                     self.finish_unit(r);
+                }
+            }
+            Op::Stop => {
+                if let Some(sig) = &self.signal {
+                    sh.push(Ev::Op(ROp::Stop));
+                    sig.stop();
+                    sh.push(Ev::OpRes(Res::Ok));
                 }
             }
             Op::Wakeup => {
